@@ -93,7 +93,7 @@ StringDictionaryRPFC::StringDictionaryRPFC(IteratorDictString *it,
     {
       // Extracting the internal strings for Re-Pair compression
 
-      while ((ptrpdict + (size_t)(bucketsize * maxlength)) > reservedInts)
+      while ((ptrpdict + (size_t)bucketsize * (maxlength + 6)) > reservedInts)
         reservedInts = Reallocate(&rpdict, reservedInts);
 
       // Stores the last position with 0 to avoid confusions with 0 values
